@@ -274,6 +274,8 @@ def handle (j : Json) : Except String Json := do
       | "cyk" => CheckText.cyk ref (gs "word") ans
       | "derivation" => CheckText.derivation ref ans (gs "word") (gn "kind")
       | "chomsky" => CheckText.chomsky ref ans (gn "phase") (gs "start") (gn "len")
+      | "dfa_accepts_rejects" => CheckText.dfaAcceptsRejects ans (gs "accepted") (gs "rejected")
+      | "cfg_accepts_rejects" => CheckText.cfgAcceptsRejects ans (gs "accepted") (gs "rejected")
       | "dfa_language_file" => CheckText.dfaLanguageFile ans ref (gn "len")
       | "nfa_language_file" => CheckText.nfaLanguageFile ans ref sched (gn "len")
       | _ => CheckText.Verdict.error
